@@ -157,7 +157,6 @@ func ParamsFromConsts(matDelay, allowH, requireH, ephH, foundH, reward uint64, g
 	return Params{MatDelay: matDelay, AllowH: allowH, RequireH: requireH, EphH: ephH, FoundH: foundH, Reward: reward, GenSC: gsc, GenSF: gsf}
 }
 
-
 // spoilPayout applies a block-level payout defect and seals the block again.
 func (s *Sim) spoilPayout(b types.Block, kind string) types.Block {
 	b.MinerPayouts = append([]types.SiacoinOutput(nil), b.MinerPayouts...)
